@@ -254,6 +254,27 @@ def check_tables(acc, out):
             out.append((f"configdb_type_width_mismatch|{name}", f"{hex(kid)} {t}"))
         ids.setdefault(kid, []).append(name)
     acc.extra["configdb_keys"] = len(UBX_CONFIG_DATABASE)
+    # consequence for the configuration database: every declared key is usable (a CFG-VALSET / CFG-VALGET holding
+    # it exposes it under its own name) and two different keys of one message never share an attribute name
+    first = {}
+    for name, (kid, t) in ((n, e) for n, e in UBX_CONFIG_DATABASE.items() if isinstance(e, tuple) and len(e) == 2):
+        first.setdefault(kid, name)
+    kids = list(first)
+    WID = {1: 1, 2: 1, 3: 2, 4: 4, 5: 8}
+    for j, kid in enumerate(kids):
+        other = kids[(j + 1) % len(kids)]
+        body = b"".join(k.to_bytes(4, "little") + bytes([1] + [0] * (WID.get((k >> 28) & 7, 1) - 1)) for k in (kid, other))
+        for mode, cid, hdr in ((SET, (0x06, 0x8A), b"\x00\x01\x00\x00"), (GET, (0x06, 0x8B), b"\x01\x00\x00\x00")):
+            acc.transitions += 1
+            try:
+                m = UBXReader.parse(ref.frame(cid[0], cid[1], hdr + body), msgmode=mode)
+                got = [k for k in m.__dict__ if k.startswith("CFG_")]
+            except Exception as ex:  # noqa: BLE001
+                out.append((f"declared_config_key_unusable|{type(ex).__name__}", f"{first[kid]}: {ex}"))
+                continue
+            if got != [first[kid], first[other]]:
+                why = "two_keys_under_one_name" if len(got) < 2 else "exposed_under_another_name"
+                out.append((f"declared_config_key_unusable|{why}", f"{first[kid]} + {first[other]} parsed as {got}"))
     for kid, ns in ids.items():
         if len(ns) > 1:
             acc.note("configdb_aliases", f"{hex(kid)}:{'/'.join(ns)}")
